@@ -161,7 +161,7 @@ def run(chk):
             chk.broken("harness failure or unclassified error", dict(desc, scenario=s.case()))
             continue
         full = dict(desc, scenario=s.case())
-        res, log, store = impl[0]
+        res, log, store = impl[0][:3]
         reqs = [r for r in clientrun.names(log) if r.endswith(".root.json")]
         if err == "refuse_shipped":
             if res[0] == 0 or reqs:
